@@ -12,7 +12,7 @@ import (
 func init() {
 	register(&PropRule{
 		ID:    "C03",
-		Roots: []string{"./pkg/slayers/path/...", "./pkg/snet"},
+		Roots: []string{"./pkg/slayers/path/...", "./pkg/snet", "./router"},
 		Explain: "Decides the structural necessary conditions of path reversal (what must hold for a reply to retrace the " +
 			"request's interfaces in reverse order); acceptance by the routers on the way back is a property of " +
 			"concrete MAC chains and is NOT decided. (R1) Decoded.Reverse, for a non-empty path: exchanges the " +
@@ -69,6 +69,7 @@ func init() {
 }
 
 func runC03(c *Ctx) {
+	routerSegIDWriteBack(c, "R5-router-writes-segid-back")
 	sp := "pkg/slayers/path/scion."
 	if v := c.View("(*" + sp + "Decoded).Reverse"); v != nil {
 		rule := "R1-reverse"
